@@ -1,6 +1,6 @@
 #!/bin/bash
 # tools/verify_seeded.sh <ID> [<ID>...]  — independent confirmation of a seeded change delivered in
-# /tmp/seeded-out/<ID>/ (patch.diff, seeded_demo.rs): in a scratch worktree of /repo it must
+# ${SEED_SRC:-/tmp/seeded-out}/<ID>/ (patch.diff, seeded_demo.rs): in a scratch worktree of /repo it must
 # (1) apply and compile, (2) make the demo fail, (3) leave the suite's result unchanged (only the 4
 # baseline failures), and (4) the demo must pass without the change. Results: /tmp/seeded-out/<ID>/verify.log
 WT=/tmp/seedverify
@@ -9,7 +9,7 @@ if [ ! -d $WT ]; then git -C /repo worktree add $WT HEAD >/dev/null 2>&1 || exit
 cd $WT || exit 2
 git checkout -q --detach "$(git -C /repo rev-parse HEAD)" 2>/dev/null
 for ID in "$@"; do
-  D=/tmp/seeded-out/$ID; L=$D/verify.log; : > $L
+  D=${SEED_SRC:-/tmp/seeded-out}/$ID; L=$D/verify.log; : > $L
   git checkout -q -- . ; rm -f crates/core/tests/seeded_demo.rs
   cp $D/seeded_demo.rs crates/core/tests/seeded_demo.rs
   # without the change: demo passes
